@@ -130,7 +130,18 @@ class Asn1Anchors:
         ex = wr.methods.get("__exit__")
         if ex is None:
             raise AnalysisError("ASN1Writer.__exit__ not found")
+        self.exit_entry = ex
         ps = module_callees(model, ex)
+        for _hop in range(2):
+            if ps:
+                break
+            # __exit__ is a thin wrapper around another method of the writer (close()): that method is the flush
+            inner = [wr.methods[n.func.attr] for n in ast.walk(ex.node) if isinstance(n, ast.Call) and isinstance(n.func, ast.Attribute)
+                     and isinstance(n.func.value, ast.Name) and n.func.value.id == "self" and n.func.attr in wr.methods]
+            if len(inner) != 1:
+                break
+            ex = inner[0]
+            ps = module_callees(model, ex)
         if len(ps) > 1:
             # several helpers: the packing routine is the one whose result is handed to the parent's buffer
             flushed: List[FuncInfo] = []
